@@ -280,6 +280,15 @@ def judge(plan, segments, queries, fresh):
             "getter publishes (registry before the step: %s)" %
             (cname, ev["state_before"]["registry"])))
         break
+      if _raised(ret) and ret["exc"] == "CallTimeout":
+        viol.append(_viol(
+            "C18", "hangs", i, cname,
+            "%s on a well-formed %s batch of %d did not return (%s); "
+            "families %s" % (cname, kind, len(arts), ret.get("msg"),
+                             [a["fam"] for a in arts]),
+            _known_c18(kind, cname, arts, ret, plan),
+            {"state_before": ev["state_before"]}))
+        break
       if _raised(ret):
         known = _known_c18(kind, cname, arts, ret, plan)
         viol.append(_viol(
